@@ -45,7 +45,7 @@ theorem full_date_roundtrip (j : ℚ) (hj : 0 ≤ j) (y m d h mi : Int) (s : ℚ
   injection hfd with hfd
   simp only [Prod.mk.injEq] at hfd
   obtain ⟨rfl, rfl, rfl, rfl, rfl, rfl⟩ := hfd
-  rw [hms_sum, compute_jde_frac _ _ _ _ (dayFrac_nonneg j) (dayFrac_lt_one j), jdnI_civilDay]
+  rw [hms_sum, compute_jde_frac _ _ _ _ (dayFrac_nonneg j) (dayFrac_lt_one j) (civilDay_valid _), jdnI_civilDay]
   exact (instant_split j hj).symm
 
 /-- The same round trip through the constructor `Epoch(y, m, d, h, mi, s)`. -/
@@ -67,7 +67,7 @@ theorem full_date_roundtrip_constructor (j : ℚ) (hj : 0 ≤ j) (y m d h mi : I
     (by exact_mod_cast a) (by exact_mod_cast (by omega : hourOf (dayFrac j) < 24))
     (by exact_mod_cast c) (by exact_mod_cast (by omega : minOf (dayFrac j) < 60)) e f]
   simp only
-  rw [set_fold_eq _ _ _ _ _ _ (by rw [hms_sum]; exact dayFrac_nonneg j) (by rw [hms_sum]; exact dayFrac_lt_one j),
+  rw [set_fold_eq _ _ _ _ _ _ (civilDay_valid _) (by rw [hms_sum]; exact dayFrac_nonneg j) (by rw [hms_sum]; exact dayFrac_lt_one j),
     hms_sum, jdnI_civilDay]
   rw [← instant_split j hj]
 
@@ -110,7 +110,7 @@ theorem set_jde_exact (j : ℚ) (hj : 0 ≤ j) : Epoch.init (.number j) = .ok { 
   obtain ⟨hy, hm1, hm12, hd1, hdl, _⟩ := civilDay_valid (dayNo j)
   unfold Epoch.init Epoch.set
   simp only [get_full_date_civil j hj, ofInt]
-  rw [set_fold_eq _ _ _ _ _ _ (by rw [hms_sum]; exact dayFrac_nonneg j) (by rw [hms_sum]; exact dayFrac_lt_one j),
+  rw [set_fold_eq _ _ _ _ _ _ (civilDay_valid _) (by rw [hms_sum]; exact dayFrac_nonneg j) (by rw [hms_sum]; exact dayFrac_lt_one j),
     hms_sum, jdnI_civilDay, ← instant_split j hj]
 
 /-- "copy of another Epoch": `Epoch(e)` has the JDE of `e`. -/
@@ -169,7 +169,7 @@ theorem forms_hms (y m d h mi : Int) (s : ℚ) (hv : Valid y m d) (hh0 : 0 ≤ h
     (hm0 : 0 ≤ mi) (hm1 : mi ≤ 59) (hs0 : 0 ≤ s) (hs1 : s < 60) :
     Epoch.init (.many (.ymd y (.num m) (ofInt d) [ofInt h, ofInt mi, s])) =
       .ok { jde := (jdnI y m d : ℚ) - 1 / 2 + ((h : ℚ) / 24 + (mi : ℚ) / 1440 + s / 86400) } := by
-  obtain ⟨hy, hmo1, hmo12, hd1, hdl, _⟩ := hv
+  obtain ⟨hy, hmo1, hmo12, hd1, hdl, _⟩ := id hv
   have qh0 : (0 : ℚ) ≤ (h : ℚ) := by exact_mod_cast hh0
   have qh1 : (h : ℚ) ≤ 23 := by exact_mod_cast hh1
   have qm0 : (0 : ℚ) ≤ (mi : ℚ) := by exact_mod_cast hm0
@@ -179,7 +179,7 @@ theorem forms_hms (y m d h mi : Int) (s : ℚ) (hv : Valid y m d) (hh0 : 0 ≤ h
   rw [check_values_ok _ _ _ _ _ _ hy hmo1 hmo12 (by exact_mod_cast hd1)
     (by exact_mod_cast (by omega : d < monthLen y m + 1)) qh0 (by linarith) qm0 (by linarith) hs0 hs1]
   simp only
-  rw [set_fold_eq _ _ _ _ _ _ (by positivity) (by linarith)]
+  rw [set_fold_eq _ _ _ _ _ _ hv (by positivity) (by linarith)]
 
 /-- "fractional day versus h/m/s": the same instant given as `(y, m, d + h/24 + mi/1440 + s/86400)`
     gives the same JDE as `(y, m, d, h, mi, s)`. -/
@@ -188,7 +188,7 @@ theorem forms_fractional_day (y m d h mi : Int) (s : ℚ) (hv : Valid y m d) (hh
     Epoch.init (.many (.ymd y (.num m) ((d : ℚ) + ((h : ℚ) / 24 + (mi : ℚ) / 1440 + s / 86400)) [])) =
       Epoch.init (.many (.ymd y (.num m) (ofInt d) [ofInt h, ofInt mi, s])) := by
   rw [forms_hms y m d h mi s hv hh0 hh1 hm0 hm1 hs0 hs1]
-  obtain ⟨hy, hmo1, hmo12, hd1, hdl, _⟩ := hv
+  obtain ⟨hy, hmo1, hmo12, hd1, hdl, _⟩ := id hv
   have qh0 : (0 : ℚ) ≤ (h : ℚ) := by exact_mod_cast hh0
   have qh1 : (h : ℚ) ≤ 23 := by exact_mod_cast hh1
   have qm0 : (0 : ℚ) ≤ (mi : ℚ) := by exact_mod_cast hm0
@@ -205,7 +205,7 @@ theorem forms_fractional_day (y m d h mi : Int) (s : ℚ) (hv : Valid y m d) (hh
   simp only
   unfold set_fold compute_jde_tt
   have e0 : ∀ q : ℚ, q + ((0 : ℚ) / 24.0 + 0 / 1440.0 + 0 / 86400.0) = q := by intro q; norm_num
-  simp only [e0, compute_jde_frac y m d _ f0 f1]
+  simp only [e0, compute_jde_frac y m d _ f0 f1 hv]
   congr 1
   norm_num
 
@@ -219,14 +219,40 @@ theorem check_input_date_forms (y m d : Int) (mo : MonthArg) (dq : ℚ) (rest : 
     check_input_date (.epoch e) = .ok e :=
   ⟨rfl, rfl, rfl, rfl, rfl⟩
 
-/-- Why the h/m/s form is fragile in binary64 (known finding C02-reform-eve-hms-rounds-to-day-5): in
-    the model `_compute_jde` is NOT monotone in the day across the reform — "October 5.0, 1582" is read
-    as a Gregorian date and lies 9 days BEFORE October 4.0 (10 days before the end of October 4).  In
-    exact arithmetic `4 + h/24 + mi/1440 + s/86400 < 5` (theorem `forms_hms`); in binary64 the sum can
-    round up to 5.0. -/
-theorem compute_jde_reform_step_counterexample :
-    compute_jde 1582 10 5 = compute_jde 1582 10 4 - 9 ∧ compute_jde 1582 10 4 = 2299159.5 := by
-  constructor <;> decide +kernel
+/-- The evening of 4 October 1582 (formerly finding C02-reform-eve-hms-rounds-to-day-5, repaired in
+    `_compute_jde` by `if jde < 2299160.5: jde -= b`): `_compute_jde` is now continuous up to and
+    INCLUDING day 5.0 — the value `4 + h/24 + mi/1440 + s/86400` can be rounded up to in binary64 —
+    so "October 5.0, 1582" is the reform instant JDE 2299160.5, the same instant as 15.0 October, and
+    no longer 10 days before it. -/
+theorem reform_eve_day_continuous (x : ℚ) (h4 : 4 ≤ x) (h5 : x ≤ 5) :
+    compute_jde 1582 10 x = 2299155.5 + x ∧ compute_jde 1582 10 5 = 2299160.5 ∧
+      compute_jde 1582 10 15 = 2299160.5 := by
+  refine ⟨?_, by decide +kernel, by decide +kernel⟩
+  rcases lt_or_eq_of_le h5 with hlt | heq
+  · have := compute_jde_frac 1582 10 4 (x - 4) (by linarith) (by linarith) (by decide)
+    rw [show ((4 : Int) : ℚ) + (x - 4) = x by push_cast; ring] at this
+    rw [this, show jdnI 1582 10 4 = 2299160 by decide]
+    norm_num; ring
+  · subst heq
+    have : compute_jde 1582 10 5 = 2299160.5 := by decide +kernel
+    rw [this]; norm_num
+
+/-- On the evening of 4 October 1582 the h/m/s form and the fractional-day form agree, for every
+    canonical time of day up to (not including) 24h: both store `2299159.5 + h/24 + mi/1440 + s/86400`. -/
+theorem reform_eve_forms_agree (h mi : Int) (s : ℚ) (hh0 : 0 ≤ h) (hh1 : h ≤ 23)
+    (hm0 : 0 ≤ mi) (hm1 : mi ≤ 59) (hs0 : 0 ≤ s) (hs1 : s < 60) :
+    Epoch.init (.many (.ymd 1582 (.num 10) (ofInt 4) [ofInt h, ofInt mi, s])) =
+        .ok { jde := 2299159.5 + ((h : ℚ) / 24 + (mi : ℚ) / 1440 + s / 86400) } ∧
+      Epoch.init (.many (.ymd 1582 (.num 10) (((4 : Int) : ℚ) + ((h : ℚ) / 24 + (mi : ℚ) / 1440 + s / 86400)) [])) =
+        .ok { jde := 2299159.5 + ((h : ℚ) / 24 + (mi : ℚ) / 1440 + s / 86400) } := by
+  have hv : Valid 1582 10 4 := by decide
+  have e := forms_hms 1582 10 4 h mi s hv hh0 hh1 hm0 hm1 hs0 hs1
+  have e2 := forms_fractional_day 1582 10 4 h mi s hv hh0 hh1 hm0 hm1 hs0 hs1
+  rw [e] at e2
+  have hj : ((jdnI 1582 10 4 : Int) : ℚ) - 1 / 2 = 2299159.5 := by
+    rw [show jdnI 1582 10 4 = 2299160 by decide]; norm_num
+  rw [hj] at e e2
+  exact ⟨e, e2⟩
 
 /-! ### Arithmetic -/
 
